@@ -323,6 +323,7 @@ theorem esc_cmd (fuel : Nat) (ih : Esc fuel) : ∀ s c, Within (loops s.stack) (
   | trapExit body => simp only [execCmd]; exact within_finishSimple _ _ _ trivial
   | trapSig body => simp only [execCmd]; exact within_finishSimple _ _ _ trivial
   | raise n => simp only [execCmd]; exact within_finishSimple _ _ _ trivial
+  | raiseErr => simp only [execCmd, St.expansionError]; split <;> trivial
   | group body => simp only [execCmd]; exact ih.list s body
   | subshell body =>
     simp only [execCmd]
